@@ -7,6 +7,7 @@ CONSTANTS
   MaxCalls = 24
   Counts = {1, 2}
   Depth = 24
+  DrainedOK = TRUE
   OwedVals = {0, 3}
 SPECIFICATION RSpec
 INVARIANT Emit
